@@ -361,6 +361,20 @@ def run(chk: Check) -> None:
             w3 = "exn:" + type(e).__name__
         lines.append("senc " + hexs(boundary.encode()) + "".join(" " + t for t in _item_tokens(data3, reads)))
         impl.append(w3)
+        # the property itself on that wire: every upload comes back byte for byte although its file object returned short reads
+        if w3.startswith("ok ") and not clash_of(order, boundary):
+            try:
+                wire3 = unhex(w3[3:])
+                _, fl3 = MultiPartParser().parse(io.BytesIO(wire3), boundary.encode(), len(wire3))
+                got3 = [(k, f.read()) for k, f in fl3.items(multi=True)]
+            except Exception as e:  # noqa: BLE001
+                got3 = repr(e)
+            # wire order = data3.items(multi=True): grouped by key (a field and a file may share a name)
+            want3 = [(k, v.stream.data) for k, v in data3.items(multi=True) if getattr(v, "read", None) is not None]
+            if got3 != want3:
+                chk.fail("client-short-read-upload", "an upload whose file object returns short reads did not come back identical",
+                         {"files": [(x[0], x[1].hex()) for k, x in order if k == "F"], "boundary": boundary,
+                          "got": repr(got3)[:300]})
         try:
             form, fl = MultiPartParser(buffer_size=rng.choice([1, 7, 64, 1 << 16])).parse(stream, b2.encode(), length)
             got2 = (MultiDict(form), MultiDict([(k, (f.filename, f.content_type, f.read())) for k, f in fl.items(multi=True)]))
@@ -422,6 +436,15 @@ def run(chk: Check) -> None:
     chk.count("model:mismatches", mism)
 
 
+def clash_of(order, boundary: str) -> bool:
+    """a file payload that contains a delimiter line for this boundary cannot be carried by it"""
+    return any(l + b"--" + boundary.encode() in b"\r\n" + x[1] for l in (b"\r", b"\n") for k, x in order if k == "F")
+
+
+def unhex(h: str) -> bytes:
+    return b"" if h == "-" else bytes.fromhex(h)
+
+
 class _ShortReader:
     """a file object whose read(n) returns between 1 and n bytes (records every chunk it handed out)"""
 
@@ -454,7 +477,9 @@ def _item_tokens(data, reads: dict) -> list[str]:
         fn = getattr(v, "filename", getattr(v, "name", None))
         hd = "^".join(f"{cps(n)}~{cps(x)}" for n, x in v.headers) or "~"
         if id(v.stream) in reads:
-            chunks = reads[id(v.stream)]
+            # the model gets the file's TRUE content (as one read: C02_client_wire_reads_irrelevant), not what the encoder
+            # happened to read, so an encoder that stops early disagrees with it
+            chunks = [v.stream.data] if v.stream.data else []
         else:
             body = v.stream.getvalue()
             chunks = [body[i:i + 16384] for i in range(0, len(body), 16384)]
